@@ -180,7 +180,19 @@ inductive WriteRes
   | ok | err
   deriving Repr, DecidableEq, Inhabited
 
-/-- `DefaultMetricLogWriter::write`; `items` already carry `ts` -/
+/-- the part of `write` after a possible day roll-over: the index entry of a new second (or of the first lines of a file), the
+lines, and the roll-over by size -/
+def Writer.writeTail (w : Writer) (fs1 : FS) (cur1 : FileId) (ts : Nat) (items : List MItem) : Writer × List Act :=
+  let sec := ts / 1000
+  let pos := ((fs1.logs.get? cur1).getD []).length
+  let acts2 := if sec > w.latest ∨ pos = 0 then [Act.append true cur1 (be64 sec), Act.append true cur1 (be64 pos)] else []
+  let acts3 := items.map (fun it => Act.append false cur1 (lineBytes { it with ts := ts }))
+  let fs3 := (fs1.applyAll acts2).applyAll acts3
+  let len := ((fs3.logs.get? cur1).getD []).length
+  let r4 := if len ≥ w.maxSize then rollActs fs3 w.maxFiles ts else (cur1, [])
+  ({ w with latest := max w.latest sec, cur := some r4.1 }, acts2 ++ acts3 ++ r4.2)
+
+/-- `DefaultMetricLogWriter::write` (the writer stamps the items with `ts`) -/
 def Writer.write (w : Writer) (fs : FS) (ts : Nat) (items : List MItem) : Writer × List Act × WriteRes :=
   if items.isEmpty then (w, [], .ok)
   else if ts = 0 then (w, [], .err)
@@ -192,16 +204,9 @@ def Writer.write (w : Writer) (fs : FS) (ts : Nat) (items : List MItem) : Writer
       if sec < w.latest then (w, [], .ok)
       else
         -- a new day: roll first, so that the index entry goes to the file that gets the lines
-        let (cur1, acts1) :=
-          if sec > w.latest ∧ dayOfSec sec > dayOfSec w.latest then rollActs fs w.maxFiles ts else (cur0, [])
-        let fs1 := fs.applyAll acts1
-        let pos := ((fs1.logs.get? cur1).getD []).length
-        let acts2 := if sec > w.latest ∨ pos = 0 then [Act.append true cur1 (be64 sec), Act.append true cur1 (be64 pos)] else []
-        let acts3 := items.map (fun it => Act.append false cur1 (lineBytes { it with ts := ts }))
-        let fs3 := (fs1.applyAll acts2).applyAll acts3
-        let len := ((fs3.logs.get? cur1).getD []).length
-        let (cur4, acts4) := if len ≥ w.maxSize then rollActs fs3 w.maxFiles ts else (cur1, [])
-        ({ w with latest := max w.latest sec, cur := some cur4 }, acts1 ++ acts2 ++ acts3 ++ acts4, .ok)
+        let r1 := if sec > w.latest ∧ dayOfSec sec > dayOfSec w.latest then rollActs fs w.maxFiles ts else (cur0, [])
+        let t := w.writeTail (fs.applyAll r1.2) r1.1 ts items
+        (t.1, r1.2 ++ t.2, .ok)
 
 /-! ## reader -/
 
